@@ -376,6 +376,36 @@ func TestCheck(t *testing.T) {
 
 	r.ColdPhase(coldFirst)
 
+	r.Phase("W3: a text parsed, then N distinct other texts (N = 1..200000 on a ladder around powers of two), then the same text again", func() {
+		defer setLimit(10)()
+		r.Serial(func(w *vkit.W) {
+			filler := int64(0)
+			for li, n := range []int{1, 2, 3, 31, 32, 33, 63, 64, 65, 127, 128, 129, 255, 256, 257, 511, 512, 513, 1023, 1024, 1025, 2047, 2048, 2049, 4096, 8192, 65536, 200000} {
+				x := ref.DateText(int64(2000+li), 2, 28, false)
+				y := ref.DateText(int64(1000+n%8000), 12, 31, true)
+				for _, rule := range rules {
+					judge(Case{Text: vkit.B(x), Rule: rule, Limit: 10}, w)
+					judge(Case{Text: vkit.B(y), Rule: rule, Limit: 10}, w)
+				}
+				for k := 0; k < n; k++ {
+					filler++
+					yy, mm, dd := ref.CivilFromDays(ref.Ord0 + filler*7%3652000)
+					t := ref.DateText(yy, mm, dd, filler%2 == 0)
+					if filler%3 == 0 {
+						_, _ = date.DefaultParser([]byte(t), 0)
+					} else {
+						_, _ = date.DefaultParser(t, date.RuleDisableBasic)
+					}
+				}
+				for _, rule := range rules {
+					judge(Case{Text: vkit.B(x), Rule: rule, Limit: 10}, w)
+					judge(Case{Text: vkit.B(y), Rule: rule, Limit: 10}, w)
+				}
+				w.EvalRandom(vkit.Hash64("W3", x), true)
+			}
+		})
+	})
+
 	// Phase D: rapid - random valid and near-valid texts under random configuration (shrinks to a minimal text).
 	r.Phase("D: rapid texts", func() {
 		var lim int
